@@ -255,6 +255,18 @@ def sstmts (st : GState) : List SStmt := st.body.map (·.2)
 
 def isTag (i : Nat) (p : Option Nat × Event) : Bool := p.1 == some i
 
+/-- Is this tagged event produced by a node that calls (a cast of) graph input `t`? -/
+def byCallerOf (fg : Factory.Graph) (t : Nat) (p : Option Nat × Event) : Bool :=
+  match p.1 with
+  | some j => Factory.callsInput fg t j
+  | none => false
+
+/-- Is this tagged event produced by a node that calls tracer `c` directly (C15: the user constant)? -/
+def byCallOf (ag : Adapt.Graph) (c : Nat) (p : Option Nat × Event) : Bool :=
+  match p.1 with
+  | some j => (match ag.apps[j]? with | some a => Adapt.isCallOf c a | none => false)
+  | none => false
+
 /-- Head and arguments of a call term `f(a…, k=v…)`. -/
 def callParts : E → Option (E × List E)
   | .node .call (.cons f rest) => some (f, rest.toList)
